@@ -463,7 +463,12 @@ package jet
 //@   requires RtOK(st)
 //@   modifies @Interp
 //@   loop 0 invariant RtOK(st) && st.scope.parent == old(st.scope) && st.content == old(st.content) && st.escapeeWriter.Writer == old(st.escapeeWriter.Writer) && deferred(0)
+//@   loop 0 invariant [root-walk] t != nil && RootOf(t) == RootOf(lastret("(*Set).getSiblingTemplate", 0)) && Root == t.Root && st.scope.blocks == lastret("(*Set).getSiblingTemplate", 0).processedBlocks
+//@   loop 0 invariant [include-context] ite(node.Context != nil, deferred(1) && context == old(st.context), st.context == old(st.context))
 //@   ensures [include-leaks-nothing] SameS(st)
+//@   callsite (*Set).getSiblingTemplate 0 requires [include-resolves-against-includer] siblingPath == caller.node.TemplatePath && cacheAfterParsing
+//@   callsite (*Runtime).executeList 0 requires [include-renders-root-with-its-blocks] list == RootOf(lastret("(*Set).getSiblingTemplate", 0)).Root && st.scope.blocks == lastret("(*Set).getSiblingTemplate", 0).processedBlocks && st.scope.parent == old(st.scope) && (caller.node.Context == nil ==> st.context == old(st.context))
+//@   callsite (*Runtime).executeList count 1
 
 //@ func (*Runtime).YieldBlock
 //@   props C18 C07
@@ -477,6 +482,15 @@ package jet
 //@ func (*Set).getSiblingTemplate
 //@   props C15 C16
 //@   requires s != nil
+//@   ensures err == nil ==> t != nil
+//@ func (*Set).GetTemplate
+//@   props C15 C16
+//@   requires s != nil
+//@   ensures err == nil ==> t != nil
+
+// RootOf(t): the root ancestor of t along extends (templates are immutable while executing)
+//@ ufunc RootOf(*Template) *Template
+//@ axiom forallT(t, "*Template", t != nil ==> RootOf(t) == ite(t.extends == nil, t, RootOf(t.extends)))
 
 // ---- Execute: a pure function of its inputs (C10) --------------------------------------------------
 
@@ -509,7 +523,33 @@ package jet
 //@   nocrash
 //@   requires t != nil && t.set != nil && t.set.gmx != nil
 //@   modifies @Interp, type Runtime.escapeeWriter, type escapeeWriter.set, type scope.blocks, type scope.variables, type scope.parent
-//@   loop 0 invariant t != nil
+//@   loop 0 invariant [root-walk] t != nil && RootOf(t) == RootOf(old(t))
 //@   callsite (*sync.Pool).Put 0 requires [pool-invariant-at-put] p == gaddr(pool_State) && istype(x, "*Runtime") && PoolInv(as(x, "*Runtime"))
+//@   callsite (*Runtime).executeList 0 requires [extends-renders-root-ancestor] list == RootOf(caller.t).Root
 //@   callsite (*Runtime).executeList 0 requires [execution-state-determined-by-inputs] st.scope.blocks == caller.t.processedBlocks && st.scope.variables == caller.variables && st.scope.parent == nil && st.escapeeWriter.set == caller.t.set && st.escapeeWriter.Writer == caller.w && st.content == nil && ite(caller.data != nil, st.context == RvOf(caller.data), !RvValid(st.context))
+//@   callsite (*Runtime).executeList count 1
+
+// ---- exec / includeIfExists built-ins (default.go) ---------------------------------------------------------
+
+//@ func init#1$4
+//@   props C09 C07 C01
+//@   nocrash
+//@   requires RtOK(a.runtime)
+//@   modifies @Interp
+//@   loop 0 invariant [root-walk] RtOK(a.runtime) && t != nil && RootOf(t) == RootOf(lastret("(*Set).GetTemplate", 0)) && root == t.Root && a.runtime.scope.blocks == lastret("(*Set).GetTemplate", 0).processedBlocks && a.runtime.scope.parent == old(a.runtime.scope) && a.runtime.content == old(a.runtime.content) && a.runtime.context == old(a.runtime.context) && deferred(0) && deferred(1) && a.runtime.escapeeWriter.Writer == ioutil.Discard && w == old(a.runtime.escapeeWriter.Writer)
+//@   ensures [exec-balanced] SameS(a.runtime)
+//@   callsite (*Runtime).executeList 0 requires [exec-discards-output] st.escapeeWriter.Writer == ioutil.Discard
+//@   callsite (*Runtime).executeList 0 requires [exec-runs-root-with-its-blocks] list == RootOf(lastret("(*Set).GetTemplate", 0)).Root && st.scope.blocks == lastret("(*Set).GetTemplate", 0).processedBlocks && st.scope.parent == old(a.runtime.scope)
+//@   callsite (*Runtime).executeList count 1
+
+//@ func init#1$3
+//@   props C09 C07
+//@   nocrash
+//@   requires RtOK(a.runtime)
+//@   modifies @Interp
+//@   loop 0 invariant [root-walk] RtOK(a.runtime) && t != nil && RootOf(t) == RootOf(lastret("(*Set).GetTemplate", 0)) && root == t.Root && a.runtime.scope.blocks == lastret("(*Set).GetTemplate", 0).processedBlocks && a.runtime.scope.parent == old(a.runtime.scope) && a.runtime.content == old(a.runtime.content) && a.runtime.context == old(a.runtime.context) && deferred(0) && a.runtime.escapeeWriter.Writer == old(a.runtime.escapeeWriter.Writer)
+//@   ensures [includeIfExists-balanced] SameS(a.runtime)
+//@   ensures [includeIfExists-missing-renders-nothing] ncalls("(*Runtime).executeList") == 0 ==> result == hiddenFalse
+//@   ensures [includeIfExists-existing-renders-once] ncalls("(*Runtime).executeList") == 1 ==> result == hiddenTrue
+//@   callsite (*Runtime).executeList 0 requires [includeIfExists-runs-root-with-its-blocks] list == RootOf(lastret("(*Set).GetTemplate", 0)).Root && st.scope.blocks == lastret("(*Set).GetTemplate", 0).processedBlocks && st.scope.parent == old(a.runtime.scope) && st.escapeeWriter.Writer == old(a.runtime.escapeeWriter.Writer)
 //@   callsite (*Runtime).executeList count 1
